@@ -12,6 +12,7 @@ import (
 	"time"
 
 	"mellium.im/xmlstream"
+	"mellium.im/xmpp"
 	"mellium.im/xmpp/jid"
 	"mellium.im/xmpp/stanza"
 
@@ -150,6 +151,9 @@ type sessRun struct {
 	problems []string
 	fed     []peerStanza
 	hitRet  string // outcome of the hit requester when the serve loop went into offering
+	broken    bool // a transmission failed inside an element: every later write of the session fails
+	outClosed bool // the output stream was closed
+	dead      bool // Serve has returned (it had to write on an output that cannot take it)
 }
 
 type handlerFn func(t xmlstream.TokenReadEncoder, start *xml.StartElement) error
@@ -271,7 +275,16 @@ func (sr *sessRun) start(i int) {
 	})
 	sr.table[rq.id] = i
 	sr.rstate[i] = "payload"
-	sr.wait(isEv(label, "park:payload"), label+" at payload gate")
+	// on a healthy output the call parks in its transmission; on a broken or closed one it
+	// fails at once
+	e, ok := sr.wait(func(e Ev) bool { return e.Who == label && (e.What == "park:payload" || strings.HasPrefix(e.What, "ret:")) }, label+" at payload gate or returned")
+	if ok && strings.HasPrefix(e.What, "ret:") {
+		if !sr.broken && !sr.outClosed {
+			sr.problem("requester %d returned at once on a healthy output", i)
+		}
+		sr.trace = append(sr.trace, "f"+strconv.Itoa(i))
+		sr.returned(i, e)
+	}
 }
 
 // returned handles the return event of requester i.
@@ -322,7 +335,8 @@ func (sr *sessRun) returned(i int, e Ev) {
 		if !sr.cancd[i] {
 			sr.r.Fail("outcome", "ctx-error-without-cancel", sr.lines(), fmt.Sprintf("requester %d returned context.Canceled but its context was never cancelled", i))
 		}
-	case errors.Is(err, errPayload):
+	case errors.Is(err, errPayload), errors.Is(err, xmpp.ErrOutputStreamClosed),
+		err != nil && strings.Contains(err.Error(), "abandoned in the middle of an element"):
 		sr.outcome[i] = "f"
 	default:
 		sr.outcome[i] = "other"
@@ -368,6 +382,9 @@ func (sr *sessRun) act(a string) bool {
 		sr.trace = append(sr.trace, a)
 		label := "r" + strconv.Itoa(i)
 		sr.gates[i].fail <- a[0] == 'f'
+		if a[0] == 'f' {
+			sr.broken = true // the start element is on the wire, the element stays unfinished
+		}
 		sr.ctl.Release(label, "payload")
 		if a[0] == 'o' {
 			sr.rstate[i] = "presel"
@@ -395,8 +412,20 @@ func (sr *sessRun) act(a string) bool {
 		sr.rstate[i] = "insel"
 		sr.ctl.Release("r"+strconv.Itoa(i), "session.sendResp.select")
 		sr.afterEnable(i)
+	case 'C':
+		if sr.outClosed || sr.dead {
+			return false
+		}
+		for _, st := range sr.rstate {
+			if st == "payload" {
+				return false // Close needs the output lock
+			}
+		}
+		sr.trace = append(sr.trace, a)
+		sr.outClosed = true
+		common.WithTimeout(watchdog, func() { sr.rs.S.Close() })
 	case 'p':
-		if sr.serve != "idle" && !(sr.serve == "offering" && sr.hitGone()) {
+		if sr.dead || (sr.serve != "idle" && !(sr.serve == "offering" && sr.hitGone())) {
 			return false
 		}
 		p := parsePeer(a)
@@ -479,6 +508,10 @@ func (sr *sessRun) feed(p peerStanza) {
 		if !autoReply {
 			return
 		}
+		if sr.broken || sr.outClosed {
+			sr.awaitServeEnd()
+			return
+		}
 		// wait for that reply to be on the wire: it needs the output lock, which the next
 		// requester would hold while it is parked in its transmission
 		for dl := time.Now().Add(watchdog); sr.rs.Out.Len() == outBefore && time.Now().Before(dl); {
@@ -512,6 +545,16 @@ func (sr *sessRun) feed(p peerStanza) {
 	default:
 		sr.hlog = append(sr.hlog, k)
 		sr.trace = append(sr.trace, "H"+strconv.Itoa(k))
+	}
+}
+
+// awaitServeEnd: the serve loop had to write on an output that cannot take it; Serve returns.
+func (sr *sessRun) awaitServeEnd() {
+	if e, ok := sr.wait(func(e Ev) bool { return e.Who == "serve" && strings.HasPrefix(e.What, "ret:") }, "Serve to return after a write on a broken / closed output"); ok {
+		sr.dead, sr.outClosed, sr.serve = true, true, "dead"
+		if !strings.Contains(e.What, "abandoned in the middle of an element") && !strings.Contains(e.What, "closed stream") {
+			sr.problem("Serve returned %s", e.What)
+		}
 	}
 }
 
@@ -550,11 +593,22 @@ func (sr *sessRun) epilogue() string {
 		sr.trace = append(sr.trace, "h")
 		sr.serve = "idle"
 	}
-	// liveness probe
-	go sr.rs.Feed([]byte(`<message xmlns="jabber:client" id="sentinel" type="chat"/>`))
-	probe := "live"
-	if _, ok := sr.ctl.Wait(watchdog, isEv("handler", "h:message:sentinel"), &sr.skipped); !ok {
-		probe = "stall"
+	// liveness probe: a further stanza reaches the handler, or Serve has returned because it
+	// had to write on a broken / closed output — never a stall
+	probe := "dead"
+	if !sr.dead {
+		go sr.rs.Feed([]byte(`<message xmlns="jabber:client" id="sentinel" type="chat"/>`))
+		probe = "live"
+		if e, ok := sr.ctl.Wait(watchdog, func(e Ev) bool {
+			return (e.Who == "handler" && e.What == "h:message:sentinel") || (e.Who == "serve" && strings.HasPrefix(e.What, "ret:"))
+		}, &sr.skipped); !ok {
+			probe = "stall"
+		} else if e.Who == "serve" {
+			probe = "dead"
+			if !sr.broken && !sr.outClosed {
+				sr.problem("Serve returned on a healthy output: %s", e.What)
+			}
+		}
 	}
 	for _, e := range sr.ctl.Drain(&sr.skipped) {
 		if strings.HasPrefix(e.What, "panic:") {
